@@ -7,6 +7,11 @@ COMMON_TB = [
     "Rust harness (generator, printer of Coq terms), rustc/LLVM, the Python driver tools/checklib.py",
 ]
 
+REALS_AXIOMS = [
+    "ClassicalDedekindReals.sig_not_dec", "ClassicalDedekindReals.sig_forall_dec",
+    "FunctionalExtensionality.functional_extensionality_dep", "Classical_Prop.classic",
+]
+
 PROPS = {
     "C14": dict(
         prop_file="Properties/C14.v",
@@ -81,6 +86,87 @@ PROPS = {
             "indices are u32 in the implementation and nat in the model; the harness only issues small indices",
             "after a caught panic the module is not compared further (no panic occurs on the pinned tree; "
             "the model proves the unwraps and slice operations of the modelled paths cannot fail)",
+        ],
+    ),
+    "C12": dict(
+        prop_file="Properties/C12.v",
+        check_module="C12Check",
+        theorems={t: [] for t in [
+            "C12_every_history", "C12_get", "C12_insert", "C12_insert_other_keys", "C12_remove",
+            "C12_remove_other_keys", "C12_get_mut", "C12_entry", "C12_adjust_capacity", "C12_iter_len",
+            "C12_alloc_failure_unchanged", "C12_load_leaves_free_slot"]},
+        n_quick=300, n_thorough=4000,
+        gates=["hm.grew>2", "hm.removed_present", "hm.alloc_failed", "hm.mode=hint", "hm.mode=hash",
+               "hm.zero_hash_key_in_universe", "hm.get_mut_written"],
+        rule="random histories (20-300 ops) over CaoHashMap<drop-logging key, drop-logging value, fault-injecting "
+             "allocator>: insert / remove / get / contains / get_mut-write / entry(+or_insert_with) / reserve / clear / "
+             "clone / len / capacity / iter, initial capacity 0..19, small key universes (collisions, replacement), "
+             "keys whose FNV hash is 0, a second mode driving the *_with_hint API with 1-4 distinct hashes "
+             "(dense collisions, wrap-around), 1 in 8 allocating operations fails; after every operation result and "
+             "drop log are compared with the Coq model and with a reference map + drop accounting; non-trivial = "
+             ">= 4 operation kinds and at least one growth; distinct = distinct case term",
+        trusted_base=COMMON_TB + [
+            "modelled, not verified: collections/hash_map.rs (find_ind, insert_with_hint, grow/adjust_capacity, "
+            "remove_with_hint, get/contains/get_mut, entry/or_insert_with, reserve, clear/Drop, clone, iter, hash()) "
+            "and the f32 load test as integer round-to-nearest-even (exact for capacity < 2^24)",
+            "tools/gen_consts.py regenerates MAX_LOAD, the growth rule and the FNV / fibonacci constants from /repo; "
+            "the side conditions (MAX_LOAD < 1 by more than an ulp, growth strictly grows) are re-proved against them"],
+        assumptions=[
+            "K's Eq is Leibniz equality in the theorems (the correspondence instance uses keys with an instance id "
+            "that Eq ignores, only to identify objects in the drop log)",
+            "usize is 64 bits; capacities stay below 2^24 (above, `usize as f32` is inexact and the integer model of "
+            "the load test is no longer the f32 computation)",
+            "exactly-once dropping is checked by the reference-map oracle on the implementation's drop log and "
+            "stated per operation in the theorems (drop lists); the global multiset conservation theorem is not proved",
+        ],
+    ),
+    "C19": dict(
+        prop_file="Properties/C19.v",
+        check_module="C19Check",
+        theorems=dict(
+            [(t, []) for t in (
+                "C19_eq_refl", "C19_eq_self", "C19_eq_sym", "C19_eq_trans", "C19_eq_hash_bytes", "C19_eq_hash",
+                "C19_hasher_writes_concatenate", "C19_cmp_eq_coherent", "C19_cmp_swap", "C19_lt_asym",
+                "C19_cmp_int_int", "C19_cmp_real_real", "C19_cmp_nil_as_zero", "C19_cmp_obj_as_len",
+                "C19_cmp_obj_obj", "C19_cmp_str_by_len", "C19_signed_zero_hash_refuted", "C19_nan_not_reflexive",
+                "C19_fn_not_reflexive", "C19_fn_key_eq_hash_refuted", "C19_eq_trans_refuted")] +
+            # statements about real numbers (Flocq B2R / Rcompare): the axioms of Coq's Reals library.
+            [(t, REALS_AXIOMS) for t in (
+                "C19_cmp_real_real_numeric", "C19_eq_real_real_numeric", "C19_cmp_mixed_partial",
+                "C19_cmp_mixed_refuted", "C19_oracle_Z_cmp_sf_correct")]),
+        n_quick=1500, n_thorough=12000,
+        gates=["pair", "triple", "eq.true.tables_built_differently", "table_table.permuted", "table.depth>=3",
+               "mixed.int_real", "mixed.int_beyond_2^53", "zero_vs_negzero", "has_nan", "has_nan_key",
+               "has_function", "has_function_key", "hash0_remapped", "str_str.same_len_differ", "nil_vs_number",
+               "object_vs_number", "triple.eq_eq", "cmp.none", "cmp.eq_but_not_equal"],
+        rule="pairs (3/4) and triples (1/4) of values built through the host API of a fresh Vm (init_string, "
+             "init_table + insert bottom-up, nested up to 3 deep, init_function / init_native_function / "
+             "init_closure), drawn from pools biased to boundaries (0, +-1, 2^53+-1, 2^53..2^62 +-3, i64 min/max, "
+             "the i64 keys whose FNV hash is 0, +-0.0, NaNs, +-inf, subnormals, neighbours by one ulp, strings of "
+             "equal length, multi-byte strings) and from variants of the first value (same content in other "
+             "objects, other insertion order, one key/value changed, numeric twin under the coercions, other "
+             "zero); every value is read back from the real objects into a Coq term; observed: ==, both "
+             "directions, v == v, hash (CaoHashMap::insert's return value), partial_cmp both directions, <, <=, "
+             "as_bool, i64::try_from, f64::try_from; compared with the model and with the laws stated on the "
+             "observations; non-trivial = some == is true or some partial_cmp is Some or a table is involved; "
+             "distinct = distinct case term",
+        trusted_base=COMMON_TB + [
+            "Flocq 4.1.0 (binary64, B2SF, Bcompare, binary_round, b64_of_bits) and Coq's Floats.SpecFloat (SFcompare, SFeqb)",
+            "axioms of Coq's Reals library, only under the five theorems that mention real numbers: "
+            "ClassicalDedekindReals.sig_not_dec, ClassicalDedekindReals.sig_forall_dec, "
+            "FunctionalExtensionality.functional_extensionality_dep, Classical_Prop.classic",
+            "modelled, not verified: value.rs (PartialEq, Hash, PartialOrd, try_cast_match, as_bool, TryFrom<Value> "
+            "for i64/f64), cao_lang_object.rs (Hash, PartialEq, PartialOrd, len, is_empty), cao_lang_table.rs "
+            "(len, iter), CaoHasher and hash() of hash_map.rs, std's Hash for u8/i64/u64/u32/str",
+            "rustc's f64 ==, partial_cmp and `as` casts are IEEE 754 / saturating as documented",
+        ],
+        assumptions=[
+            "values are acyclic and built bottom-up: a table is not changed after it became a key of another "
+            "table (a self-referencing table overflows the native stack: A-37, outside this property)",
+            "native stack depth for deeply nested values is not modelled",
+            "upvalue objects are not values a script can compare and are left out",
+            "the Equals/Less/LessOrEq cards are observed as the closures they run (a == b, a < b, a <= b), not "
+            "through compiled scripts",
         ],
     ),
 }
